@@ -193,6 +193,14 @@ def gen_random(rng, exact=True, max_len=12):
             if m == 0 and st == 'Converged':
                 st = 'NotFinite'
         ez = gen_errz(rng, P, m, prev)
+        long_run = max_len > 12 and j < L - 1
+        if long_run:
+            # keep long histories running: no early exit before the last scripted entry
+            if st in ('Interrupted', 'Busy', 'Exception'):
+                st = 'NoProgress'
+            if st == 'Converged' and m and rng.random() < 0.9:
+                ez = gen_errz(rng, P, m, prev, kind=rng.choice(['big', 'shrink', 'tie_theta']))
+                ez = [e if abs(e) > P['dual_tolerance'] else 2 * P['dual_tolerance'] for e in ez]
         if not exact:
             ez = [e * rng.uniform(0.5, 1.5) for e in ez]
         if rng.random() < 0.02 and m:
@@ -201,13 +209,15 @@ def gen_random(rng, exact=True, max_len=12):
         if st == 'Interrupted' and rng.random() < 0.6 and j < L - 1:
             st = 'MaxIter'              # keep most long scripts running
         script.append(entry(st, eps, ez, dy, dx=rng.randint(-2, 2) / 2.0, iters=rng.randint(0, 50),
-                            extra=rng.randint(0, 9), oot=rng.random() < 0.04))
+                            extra=rng.randint(0, 9),
+                            oot=rng.random() < (0.002 if long_run else 0.04)))
         prev = ez
     return op_line(P, max_iter, single, m, split, lb, ub, f0, g0, sig, x, y, script)
 
 
-def exhaustive(max_len, ms=(0, 1, 2), sample=None, rng=None):
-    """All histories of length ≤ max_len over 6 statuses × 3 error patterns, m ∈ ms.
+def exhaustive(lengths, ms=(0, 1, 2), sample=None, rng=None):
+    """All histories of the given lengths over 6 statuses × 3 error patterns, m ∈ ms
+    (`sample`: that many random ones per length instead).
     Error patterns: A = on the dual tolerance (tie), ε = tolerance (tie);
                     B = large, not shrinking, ε = 2·tolerance;
                     C = shrinking by exactly θ (tie on the growth threshold), ε = tolerance/2."""
@@ -218,9 +228,9 @@ def exhaustive(max_len, ms=(0, 1, 2), sample=None, rng=None):
     for m in ms:
         lb = [-1.0, -INF, 0.0][:m]
         ub = [1.0, 2.0, INF][:m]
-        for L in range(1, max_len + 1):
+        for L in lengths:
             hs = itertools.product(letters, repeat=L)
-            if sample is not None and L == max_len:
+            if sample is not None:
                 hs = [tuple(rng.choice(letters) for _ in range(L)) for _ in range(sample)]
             for h in hs:
                 script, mag = [], 1.0
@@ -292,13 +302,14 @@ def gen_ops(rng, n):
     thorough = n >= 20000
     ops = excluded_points(rng)
     if thorough:
-        ops += exhaustive(4)
+        ops += exhaustive((1, 2, 3, 4))
     else:
-        ops += exhaustive(3)
-        ops += exhaustive(4, sample=1500, rng=rng)
+        ops += exhaustive((1, 2, 3))
+        ops += exhaustive((4,), sample=2500, rng=rng)
+        ops += exhaustive((6,), sample=500, rng=rng)
     for i in range(n):
         ops.append(gen_random(rng, exact=rng.random() < 0.7))
-    for i in range(max(4, n // 400)):
+    for i in range(max(30, n // 100)):
         ops.append(gen_random(rng, exact=rng.random() < 0.8, max_len=100))
     return ops
 
@@ -363,7 +374,21 @@ def finite(*vs):
 
 # ---------------------------------------------------------------- monitor
 
+DIST = {}
+
+
+def count(k):
+    DIST[k] = DIST.get(k, 0) + 1
+
+
 def monitor(op, out, st):
+    r = monitor_(op, out, st)
+    if r:
+        count('monitor hit: ' + (r[1] if isinstance(r, tuple) else 'VIOLATION'))
+    return r
+
+
+def monitor_(op, out, st):
     """The property's clauses, evaluated on what the real ALMSolver called the inner solver with and
     on what it returned — no reference to the model."""
     out = out.strip()
@@ -377,6 +402,11 @@ def monitor(op, out, st):
     tol, dtol, θ, M, maxpen = (P['tolerance'], P['dual_tolerance'], P['rel_penalty_increase_threshold'],
                                P['max_multiplier'], P['max_penalty'])
     n = len(calls)
+    count(f'final status {R["status"]}')
+    count(f'm = {m}')
+    count('inner solves: ' + ('0' if n == 0 else '1' if n == 1 else '2-4' if n <= 4 else '5-20' if n <= 20 else '>20'))
+    count('user Σ ' + ('none' if I['sig'] is None else 'given'))
+    count('single_penalty_factor' if I['single'] else 'per-component penalties')
 
     def ent(k):
         if k < len(script):
@@ -493,6 +523,7 @@ def monitor(op, out, st):
         e, eo = ent(k - 1)['errz'], (ent(k - 2)['errz'] if k >= 2 else None)
         prev = calls[k - 1]['sigma']
         changed = [i for i in range(m) if c['sigma'][i] != prev[i]]
+        count('penalty update: ' + ('some component grew' if changed else 'nothing changed'))
         if not changed or not finite(e) or (eo is not None and not finite(eo)):
             continue
         if norm_inf(e) <= dtol:
@@ -530,6 +561,10 @@ def near(a, b):
     return abs(a - b) <= 4 * 2.0 ** -52 * max(abs(a), abs(b))
 
 
+def extra_stage(rep, broken, exe, tier):
+    rep.cov['distribution'] = dict(sorted(DIST.items()))
+
+
 def nontrivial(op, out):
     t = out.split()
     if len(t) < 2 or not t[1].isdigit():
@@ -550,7 +585,7 @@ if __name__ == '__main__':
             ['outer/internal/alm-helpers.cpp', 'outer/alm.cpp', 'problem/type-erased-problem.cpp',
              'util/demangled-typename.cpp', 'util/print.cpp', 'inner/internal/solverstatus.cpp',
              'problem/problem-counters.cpp']),
-        gen_ops=gen_ops, monitor=monitor, nontrivial=nontrivial,
+        gen_ops=gen_ops, monitor=monitor, nontrivial=nontrivial, extra_stage=extra_stage,
         n_quick=3000, n_thorough=40000,
         trusted_base=[
             'Lean 4.33 kernel + Mathlib (axioms: propext, Classical.choice, Quot.sound)',
@@ -568,7 +603,7 @@ if __name__ == '__main__':
         assumptions=['the inner solver is an arbitrary function of what it is called with; the problem '
                      'passes p.check(); Σ, y, err_z have m entries'],
         rule='excluded points of ValidParams (13 fixed runs); exhaustive histories of length ≤ 3 (quick; ≤ 4 '
-             'thorough, quick samples 1500 of length 4) over {Converged, MaxIter, NotFinite, NoProgress, '
+             'thorough, quick samples 2500 of length 4 and 500 of length 6 per m) over {Converged, MaxIter, NotFinite, NoProgress, '
              'Interrupted, MaxTime} × 3 error patterns (ties on dual tolerance / θ-threshold / tolerance) × '
              'm ∈ {0,1,2}, user Σ on/off, single_penalty_factor on/off, max_iter ∈ {L, L+1}; seeded random '
              'histories (70% exact regime: powers of two; 30% generic doubles), m ∈ {0..3}, one-sided / free / '
